@@ -773,13 +773,16 @@ func (vfs *MemFS) removeAll(parent *dirNode) error {
 		return vfs.err.PermDenied
 	}
 
-	for _, child := range parent.children {
+	for name, child := range parent.children {
 		if c, ok := child.(*dirNode); ok {
 			err := vfs.removeAll(c)
 			if err != nil {
 				return err
 			}
 		}
+
+		// remove the entry together with the node: a directory must never list a deleted node.
+		parent.removeChild(name)
 
 		child.Lock()
 		child.delete()
